@@ -139,7 +139,10 @@ class RelativeValueIteration(ValueIteration):
     def _initialize_solver_state_elements(self) -> None:
         """Initialize solver state elements."""
         super()._initialize_solver_state_elements()
-        self.gain = 0.0
+        # The first sweep subtracts this gain, and every later gain is read from the
+        # reference (last) state of the relative values: start from the same state's
+        # initial value, so that a non-zero initial value function is handled correctly
+        self.gain = float(self.values[-1])
 
     def _iteration_step(self) -> tuple[ValueFunction, float]:
         """Perform one iteration of the solution algorithm.
